@@ -45,6 +45,8 @@ var PSets = map[string]rlwe.ParametersLiteral{
 	"mixedbig": {LogN: 10, LogQ: []int{60, 60, 35, 60}, LogP: []int{61}, NTTFlag: true},
 	"threeP":   {LogN: 10, LogQ: []int{50, 40, 40, 40, 40}, LogP: []int{50, 50, 50}, NTTFlag: true},
 	"noP":      {LogN: 10, LogQ: []int{45, 45}, NTTFlag: true},
+	"smallq0":  {LogN: 10, LogQ: []int{35, 45, 40}, LogP: []int{50}, NTTFlag: true},
+	"smallq0n": {LogN: 10, LogQ: []int{36, 45}, NTTFlag: false},
 	"single":   {LogN: 10, LogQ: []int{40}, LogP: []int{40}, NTTFlag: true},
 	"sparseH":  {LogN: 10, LogQ: []int{55, 45}, LogP: []int{55}, NTTFlag: true, Xs: ring.Ternary{H: 32}, Xe: ring.DiscreteGaussian{Sigma: 8, Bound: 48}},
 	"ci":       {LogN: 10, LogQ: []int{55, 45}, LogP: []int{55}, NTTFlag: true, RingType: ring.ConjugateInvariant},
@@ -534,7 +536,7 @@ func Main(args []string) int {
 	fs.Parse(args[1:])
 	if args[0] == "psets" {
 		var out []PSInfo
-		for _, name := range []string{"classic", "mixedbig", "threeP", "noP", "single", "sparseH", "ci"} {
+		for _, name := range []string{"classic", "mixedbig", "threeP", "noP", "single", "sparseH", "ci", "smallq0", "smallq0n"} {
 			l := PSets[name]
 			out = append(out, PSInfo{name, len(l.LogQ), len(l.LogP)})
 		}
